@@ -456,7 +456,9 @@ Proof.
   { intros sorted ->. split; [|split].
     - rewrite zlen_map. unfold zlen. rewrite (Permutation_length (sort_isort_perm_spec _ ltp keyed)).
       unfold keyed. rewrite map_length, iota_length. lia.
-    - rewrite map_map. rewrite <- Kfst at 2. rewrite <- isort_map_fst. apply map_ext_in. intros p Hp. now apply Kin.
+    - rewrite map_map. transitivity (map fst (isort ltp keyed)).
+      + apply map_ext_in. intros p Hp. now apply Kin.
+      + unfold ltp. rewrite isort_map_fst. now rewrite Kfst.
     - intros i Hi. unfold at_.
       assert (Li : (Z.to_nat i < length (isort ltp keyed))%nat).
       { rewrite (Permutation_length (sort_isort_perm_spec _ ltp keyed)). unfold keyed. rewrite map_length, iota_length. lia. }
@@ -483,7 +485,7 @@ Proof.
     { destruct (n <? 2) eqn:E; auto.
       assert (C : n = 0 \/ n = 1) by lia. unfold keyed. destruct C as [-> | ->]; reflexivity. }
     fold ltp. rewrite Same. rewrite skipn_all2 by (rewrite iota_length; lia). rewrite app_nil_r.
-    rewrite map_ext with (g := fun j => j) by auto. now rewrite map_id. }
+    cbn iota. now rewrite map_id. }
   unfold sort. rewrite Idx. cbn [kbind].
   destruct (Sidx _ eq_refl) as (Ls & Ms & Rs). set (sorted := map snd (isort ltp keyed)) in *.
   rewrite (kfill_spec 0 n _ (fun i => at_ fromptr (at_ sorted i))); try lia.
@@ -497,3 +499,104 @@ Theorem sort_safe toptr fromptr asc stable :
   zlen fromptr <= zlen toptr ->
   sort toptr fromptr (zlen fromptr) [0; zlen fromptr] 2 (zlen fromptr) asc stable <> KOob.
 Proof. intros H. rewrite sort_spec by auto. congruence. Qed.
+
+(** the stable argsort of a list: positions ordered by key, equal keys in input order *)
+Definition stable_argsort (lt : Z -> Z -> bool) (l : list Z) : list Z :=
+  map snd (isort (fun p q : Z * Z => lt (fst p) (fst q)) (map (fun ix => (at_ l ix, ix)) (iota (zlen l)))).
+
+Lemma sorted_index_single localise fromptr asc :
+  sorted_index localise fromptr (zlen fromptr) [0; zlen fromptr] 2 asc
+  = KOk (stable_argsort (sort_lt asc) fromptr).
+Proof.
+  pose proof (zlen_nonneg fromptr) as Hn. unfold stable_argsort. set (n := zlen fromptr) in *.
+  assert (Zi : zlen (iota n) = n) by (apply zlen_iota; lia).
+  set (keyed := map (fun ix => (at_ fromptr ix, ix)) (iota n)).
+  set (ltp := fun p q : Z * Z => sort_lt asc (fst p) (fst q)).
+  unfold sorted_index, kfor. change (Z.to_nat (2 - 1 - 0)) with 1%nat. cbn [kfor_nat].
+  rewrite (kget_at [0; n] 0) by (unfold zlen; cbn [length]; lia). cbn [kbind].
+  rewrite (kget_at [0; n] (0 + 1)) by (unfold zlen; cbn [length]; lia). cbn [kbind].
+  change (at_ [0; n] 0) with 0. change (at_ [0; n] (0 + 1)) with n.
+  unfold sort_segment. rewrite Zi.
+  replace (negb ((0 <=? 0) && (0 <=? n) && (n <=? n))) with false by lia.
+  change (Z.to_nat 0) with O. cbn [skipn firstn app].
+  rewrite firstn_all2 by (rewrite iota_length; lia).
+  assert (Hk : (if n - 0 <? 2 then KOk (map (fun ix => (0, ix)) (iota n))
+                else kmapM (fun ix => let* k := kget fromptr ix in KOk (k, ix)) (iota n))
+               = KOk (if n <? 2 then map (fun ix => (0, ix)) (iota n) else keyed)).
+  { replace (n - 0) with n by lia. destruct (n <? 2); auto.
+    unfold keyed. apply kmapM_ok. intros x Hx. apply in_iota in Hx. now rewrite (kget_at fromptr) by lia. }
+  rewrite Hk. cbn [kbind].
+  assert (Same : map snd (isort ltp (if n <? 2 then map (fun ix => (0, ix)) (iota n) else keyed))
+                 = map snd (isort ltp keyed)).
+  { destruct (n <? 2) eqn:E; auto.
+    assert (C : n = 0 \/ n = 1) by lia. unfold keyed. destruct C as [-> | ->]; reflexivity. }
+  fold ltp. rewrite Same. rewrite skipn_all2 by (rewrite iota_length; lia). rewrite app_nil_r.
+  f_equal. rewrite <- (map_id (map snd (isort ltp keyed))) at 2. apply map_ext. intros j. destruct localise; lia.
+Qed.
+
+Lemma stable_argsort_props lt l :
+  zlen (stable_argsort lt l) = zlen l /\ forall i, 0 <= i < zlen l -> 0 <= at_ (stable_argsort lt l) i < zlen l.
+Proof.
+  unfold stable_argsort.
+  set (keyed := map (fun ix => (at_ l ix, ix)) (iota (zlen l))).
+  set (ltp := fun p q : Z * Z => lt (fst p) (fst q)).
+  pose proof (zlen_nonneg l) as Hn.
+  assert (Len : length (isort ltp keyed) = Z.to_nat (zlen l)).
+  { rewrite (Permutation_length (sort_isort_perm_spec _ ltp keyed)). unfold keyed. now rewrite map_length, iota_length. }
+  split.
+  - rewrite zlen_map. unfold zlen at 1. rewrite Len. lia.
+  - intros i Hi. unfold at_ at 1 2.
+    rewrite nth_indep with (d' := snd (0, 0)) by (rewrite map_length; lia). rewrite map_nth.
+    assert (Hin : In (nth (Z.to_nat i) (isort ltp keyed) (0, 0)) keyed).
+    { apply (Permutation_in _ (sort_isort_perm_spec _ ltp keyed)). apply nth_In. lia. }
+    subst keyed. apply in_map_iff in Hin. destruct Hin as (ix & <- & Hix). apply in_iota in Hix. cbn [snd]. auto.
+Qed.
+
+(** awkward_argsort on one segment returns the stable argsort (for std::sort: one of the argsorts) *)
+Theorem argsort_spec toptr fromptr asc stable :
+  zlen fromptr <= zlen toptr ->
+  argsort toptr fromptr (zlen fromptr) [0; zlen fromptr] 2 asc stable
+  = KOk (stable_argsort (sort_lt asc) fromptr ++ skipn (length fromptr) toptr).
+Proof.
+  intros Hcap. pose proof (zlen_nonneg fromptr) as Hn. unfold argsort. rewrite sorted_index_single. cbn [kbind].
+  destruct (stable_argsort_props (sort_lt asc) fromptr) as (L & R).
+  set (sa := stable_argsort (sort_lt asc) fromptr) in *.
+  rewrite <- L. rewrite (kfill_map_spec (fun x => x) sa); try lia.
+  - rewrite map_id. do 3 f_equal. unfold zlen in L. lia.
+  - intros i Hi. now rewrite (kget_at sa) by lia.
+Qed.
+
+Theorem argsort_safe toptr fromptr asc stable :
+  zlen fromptr <= zlen toptr ->
+  argsort toptr fromptr (zlen fromptr) [0; zlen fromptr] 2 asc stable <> KOob.
+Proof. intros H. rewrite argsort_spec by auto. congruence. Qed.
+
+(** awkward_ListOffsetArray_local_preparenext_64 is the ascending argsort of fromindex *)
+Theorem ListOffsetArray_local_preparenext_spec tocarry fromindex :
+  zlen fromindex <= zlen tocarry ->
+  ListOffsetArray_local_preparenext tocarry fromindex (zlen fromindex)
+  = KOk (stable_argsort Z.ltb fromindex ++ skipn (length fromindex) tocarry).
+Proof.
+  intros Hcap. pose proof (zlen_nonneg fromindex) as Hn. unfold ListOffsetArray_local_preparenext.
+  pose proof (sorted_index_single false fromindex true) as S.
+  unfold sorted_index, kfor in S. change (Z.to_nat (2 - 1 - 0)) with 1%nat in S. cbn [kfor_nat] in S.
+  rewrite (kget_at [0; zlen fromindex] 0) in S by (unfold zlen; cbn [length]; lia). cbn [kbind] in S.
+  rewrite (kget_at [0; zlen fromindex] (0 + 1)) in S by (unfold zlen; cbn [length]; lia). cbn [kbind] in S.
+  change (at_ [0; zlen fromindex] 0) with 0 in S. change (at_ [0; zlen fromindex] (0 + 1)) with (zlen fromindex) in S.
+  change (sort_lt true) with Z.ltb in S. rewrite Z.max_r by lia.
+  destruct (sort_segment Z.ltb fromindex (iota (zlen fromindex)) 0 (zlen fromindex)) as [r| |]; cbn [kbind] in S; try discriminate.
+  injection S as S'. cbn [kbind].
+  assert (Er : r = stable_argsort Z.ltb fromindex).
+  { rewrite <- S'. change (Z.to_nat 0) with O. cbn [firstn app]. rewrite skipn_all2 by (rewrite iota_length; lia).
+    rewrite app_nil_r. cbn iota. now rewrite map_id. }
+  rewrite Er. destruct (stable_argsort_props Z.ltb fromindex) as (L & R).
+  set (sa := stable_argsort Z.ltb fromindex) in *.
+  rewrite <- L. rewrite (kfill_map_spec (fun x => x) sa); try lia.
+  - rewrite map_id. do 3 f_equal. unfold zlen in L. lia.
+  - intros i Hi. now rewrite (kget_at sa) by lia.
+Qed.
+
+Theorem ListOffsetArray_local_preparenext_safe tocarry fromindex :
+  zlen fromindex <= zlen tocarry ->
+  ListOffsetArray_local_preparenext tocarry fromindex (zlen fromindex) <> KOob.
+Proof. intros H. rewrite ListOffsetArray_local_preparenext_spec by auto. congruence. Qed.
